@@ -1548,6 +1548,7 @@ static void vi(void)
 		char *opath = ex_path();	/* do not dereference; to detect buffer changes */
 		int mv, n, ru;
 		int ccol;	/* the column of the cursor's cell */
+		int cleft;	/* xleft as the command left it */
 		term_cmd(&n);
 		vi_arg2 = 0;
 		vi_ybuf = vi_yankbuf();
@@ -1860,6 +1861,7 @@ static void vi(void)
 		vi_wfix();
 		if (mod)
 			xcol = vi_off2col(xb, xrow, xoff);
+		cleft = xleft;
 		ccol = ren_cursor(lbuf_get(xb, xrow), xcol);
 		if (ccol >= xleft + xcols)
 			xleft = ccol - xcols / 2;
@@ -1886,8 +1888,8 @@ static void vi(void)
 		}
 		if (ru && !vi_msg[0])
 			vc_status();
-		if (mod & (VC_ROW | VC_WIN) || xleft != oleft) {
-			int lineonly = mod & VC_ROW && xleft == oleft && xtop == otop;
+		if (mod & (VC_ROW | VC_WIN) || xleft != oleft || cleft != oleft) {
+			int lineonly = mod & VC_ROW && xleft == oleft && cleft == oleft && xtop == otop;
 			vi_drawagain(xcol, lineonly ? xrow : -1);
 			if (lineonly && xrow != orow)
 				vi_drawagain(xcol, orow);
